@@ -1,4 +1,5 @@
 import SimuVerif.Lemmas.C12_Centred
+import SimuVerif.Lemmas.C12_OrientClosed
 /-
   C12 — volume, area, centroid, bounding box and normals are exact and frame-independent.
 
@@ -454,6 +455,88 @@ theorem orient_outward (pos : Nat → V3 R) (O T : List Tri) (σ : Bool) (nb : N
   · rw [(h2 hneg).1]; exact closed_swap23 _ hc
   · rw [h3 hneg]; exact hc
 
+/-! ### the orientation theorem without hypotheses on the surface
+
+`orient_consistent_partial` / `orient_all_consistent` / `orient_outward` above take a consistent orientation `O` of the
+surface and the property `NbGood O nb` of the edge lookup as HYPOTHESES, and assume that the loop returned.  The theorems
+below need none of that: their only hypotheses are the tests the code itself performs in `initialize_cell_properties(true)`
+(`GatePre`: no repeated node, `generate_edge_set` met no third face, `is_manifold`: two faces per edge and V − E + F = 2 —
+as modelled in `Model/Gate.lean`, which of them exist being read from the source) and, for the orientation, the test that
+the flood fill reached every face.  The flood fill is the one of `Model/Geometry.lean` (`floodInit / floodRun / finalFlip`);
+C13's gate model `Gate.orientChecked` calls these very definitions, so C13's lemmas apply verbatim
+(`Lemmas/C12_OrientClosed.lean`): the flood fill builds a spanning tree of consistent adjacencies (`floodRun_tree`), which
+on a surface of Euler characteristic 2 extends to ALL adjacencies (`sphere_oriented`: orientability is proved, not
+assumed).  New here: the loop never reaches an undefined state and ends within the fuel (`floodStep_progress`,
+`floodRun_some`: |queue| + 3·#unchecked decreases), so that nothing about the run is assumed any more. -/
+
+/-- **termination within the fuel, no undefined behaviour**: on every triangle list that passes the tests before the flood
+    fill, the initial state exists (the three edge lookups of the seed succeed), the `while` loop ends within the
+    `3·F + 4` iterations the model allows (`floodRun` returns `none` on exhausted fuel and on every out-of-range access,
+    empty-vector access or failed edge lookup), the queue is then empty and the faces are the input faces up to reversal -/
+theorem orient_terminates (n : Nat) (T : List Tri) (es : List EdgeRec) (hpre : GatePre n T es) :
+    ∃ s0 s, floodInit (nbr es) T = some s0 ∧ floodRun (nbr es) (3 * T.length + 4) s0 = some s ∧ s.queue = [] ∧
+      s.faces.length = T.length ∧ s.checked.length = T.length ∧
+      ∀ (f : Nat) (t : Tri), T[f]? = some t → s.faces[f]? = some t ∨ s.faces[f]? = some (swap13 t) := by
+  obtain ⟨s0, s, G, h0, hs, hq, hJ⟩ := flood_terminates hpre
+  exact ⟨s0, s, h0, hs, hq, hJ.lenF, hJ.lenC, hJ.shape⟩
+
+/-- **orient_consistent** (closes `orient_consistent_partial`): for EVERY triangle list `T` with node ids in range — in
+    particular for every mix of input windings — that passes the tests of `initialize_cell_properties(true)`, the flood
+    fill of `check_face_normal_orientation` is defined and terminates within its fuel, and if it reached every face (the
+    code's test after the loop) the faces it leaves are `T` face by face up to reversal and form a consistently oriented
+    surface: every half-edge is matched by its reverse (`Closed`) and none occurs twice.  After the global sign test the
+    surface is still consistently oriented and its signed volume is ≥ 0 (`orient_outward` without `NbGood`, `hall`, `O`).
+    No connectedness, edge-manifoldness or orientability hypothesis: they are tested by the code, resp. proved. -/
+theorem orient_consistent (pos : Nat → V3 R) (n : Nat) (T : List Tri) (es : List EdgeRec)
+    (hin : ∀ t ∈ T, t.1 < n ∧ t.2.1 < n ∧ t.2.2 < n) (hpre : GatePre n T es) :
+    ∃ s0 s, floodInit (nbr es) T = some s0 ∧ floodRun (nbr es) (3 * T.length + 4) s0 = some s ∧ s.queue = [] ∧
+      (∀ (f : Nat) (t : Tri), T[f]? = some t → s.faces[f]? = some t ∨ s.faces[f]? = some (swap13 t)) ∧
+      (s.checked.all id = true →
+        Closed s.faces ∧ (he s.faces).Nodup ∧
+        Closed (finalFlip pos s.faces) ∧ (he (finalFlip pos s.faces)).Nodup ∧ C13.Rew (finalFlip pos s.faces) T ∧
+        0 ≤ volSum pos (finalFlip pos s.faces)) := by
+  obtain ⟨s0, s, G, h0, hs, hq, hJ⟩ := flood_terminates hpre
+  refine ⟨s0, s, h0, hs, hq, hJ.shape, fun hall => ?_⟩
+  obtain ⟨c1, n1, _⟩ := flood_closed hin hpre hJ hall s.faces (Or.inl rfl)
+  have hflip : finalFlip pos s.faces = s.faces ∨ finalFlip pos s.faces = s.faces.map swap23 := by
+    obtain ⟨_, h2, h3⟩ := flip_makes_nonneg pos s.faces
+    by_cases hneg : svSum pos s.faces < 0
+    · right; exact (h2 hneg).1
+    · left; exact h3 hneg
+  obtain ⟨c2, n2, r2⟩ := flood_closed hin hpre hJ hall _ hflip
+  refine ⟨c1, n1, c2, n2, r2, ?_⟩
+  rw [← orient_sum_eq_volume_sum]
+  exact (flip_makes_nonneg pos s.faces).1
+
+/-- the same for the whole of `initialize_cell_properties(true)` as modelled by `Gate.accept` (tests, flood fill, test that
+    every face was reached, sign test): the outcome is never the model's `undefined` (out-of-range access, empty-vector
+    access, failed edge lookup, exhausted fuel), and a mesh that is accepted leaves consistently oriented, outward, and
+    equal to the input face by face up to reversal -/
+theorem orient_outward_proved (pos : Nat → V3 R) (n : Nat) (T : List Tri) :
+    Gate.accept pos n T ≠ .error .undefined ∧
+    ((∀ t ∈ T, t.1 < n ∧ t.2.1 < n ∧ t.2.2 < n) → ∀ T', Gate.accept pos n T = .ok T' →
+      Closed T' ∧ (he T').Nodup ∧ C13.Rew T' T ∧ 0 ≤ volSum pos T') := by
+  rcases accept_unfold pos n T with ⟨es, hpre, hacc⟩ | h | h
+  · obtain ⟨s0', s', G', h0', hs', hJ', hoc⟩ := orientChecked_eq pos hpre
+    rw [hacc, hoc]
+    constructor
+    · cases s'.checked.all id <;> simp
+    · intro hin T' hT'
+      obtain ⟨s0, s, h0, hs, _, _, hcl⟩ := orient_consistent pos n T es hin hpre
+      have e0 : s0' = s0 := Option.some.inj (h0'.symm.trans h0)
+      subst e0
+      have e1 : s' = s := Option.some.inj (hs'.symm.trans hs)
+      subst e1
+      cases hck : s'.checked.all id with
+      | false => simp [hck] at hT'
+      | true =>
+        simp only [hck, if_true, Except.ok.injEq] at hT'
+        subst hT'
+        obtain ⟨_, _, c2, n2, r2, v2⟩ := hcl hck
+        exact ⟨c2, n2, r2, v2⟩
+  · rw [h]; exact ⟨by simp, fun _ T' hT' => by simp at hT'⟩
+  · rw [h]; exact ⟨by simp, fun _ T' hT' => by simp at hT'⟩
+
 /-! ## normals -/
 
 /-- the stored normal of a non-degenerate face is the unit vector along (p₂−p₁)×(p₃−p₁): it is
@@ -633,6 +716,14 @@ example : Rot (colMul (⟨3/5, 4/5, 0⟩ : V3 ℚ) ⟨-(4/5), 3/5, 0⟩ (V3.cros
   rot_of_frame _ _ (by norm_num [V3.dot_def]) (by norm_num [V3.dot_def]) (by norm_num [V3.dot_def])
 example : Refl (colMul (⟨3/5, 4/5, 0⟩ : V3 ℚ) ⟨-(4/5), 3/5, 0⟩ (-(V3.cross ⟨3/5, 4/5, 0⟩ ⟨-(4/5), 3/5, 0⟩))) :=
   refl_of_frame _ _ (by norm_num [V3.dot_def]) (by norm_num [V3.dot_def]) (by norm_num [V3.dot_def])
+/-- the hypotheses of `orient_consistent` hold for the mis-wound cube of the repo's test, and the flood fill reaches every face -/
+theorem cube_gatePre : GatePre 8 cubeT cubeEs := ⟨by decide, by decide, by decide⟩
+example : ∀ t ∈ cubeT, t.1 < 8 ∧ t.2.1 < 8 ∧ t.2.2 < 8 := by decide
+/-- they also hold for the two-triangle "pillow" (two faces with all three nodes in common), for which `NbGood` is false
+    (`GoodPair` demands exactly one common edge): `orient_consistent` covers meshes the partial theorem could not -/
+example : GatePre 3 [(0,1,2),(0,2,1)] ((genEdges [(0,1,2),(0,2,1)] 0 []).getD []) := ⟨by decide, by decide, by decide⟩
+example : (((floodInit (nbr cubeEs) cubeT).bind (floodRun (nbr cubeEs) (3 * cubeT.length + 4))).map
+    (fun s => s.checked.all id)) = some true := by decide
 example : GoodPair (0,1,3) (2,3,1) := ⟨1, 3, 0, 2, by decide, by decide, by decide, by decide, by decide, by decide,
   by decide, by decide⟩
 end nonvacuous
